@@ -75,7 +75,7 @@ func formatFSM(format string, a []cty.Value) (string, error) {
 		verb.ArgNum = 0
 	}
 	action argidx_num {
-		verb.ArgNum = (10 * verb.ArgNum) + (int(fc) - '0')
+		verb.ArgNum = formatNumDigit(verb.ArgNum, fc)
 	}
 
 	action has_width {
@@ -85,7 +85,7 @@ func formatFSM(format string, a []cty.Value) (string, error) {
 		verb.Width = 0
 	}
 	action width_num {
-		verb.Width = (10 * verb.Width) + (int(fc) - '0')
+		verb.Width = formatNumDigit(verb.Width, fc)
 	}
 
 	action has_prec {
@@ -95,7 +95,7 @@ func formatFSM(format string, a []cty.Value) (string, error) {
 		verb.Prec = 0
 	}
 	action prec_num {
-		verb.Prec = (10 * verb.Prec) + (int(fc) - '0')
+		verb.Prec = formatNumDigit(verb.Prec, fc)
 	}
 
 	action mode {
